@@ -135,12 +135,24 @@ def mapSliceArg (m : AMap α) (off : Nat) (inclusive : Bool) : Option α → Exc
     | none => .error .lookup
     | some p => .ok (some ((p : Int) + off + (if inclusive then 1 else 0)))
 
+/-- the stop field of `LocMap.map_slice_args`: inclusive in the direction of the step — `pos + 1`, and
+    for an integer step < 0 `pos - 1`, `None` when that falls below 0 (repaired in commit 51a0a39:
+    it used to be `pos + 1` whatever the sign of the step) -/
+def mapSliceStop (m : AMap α) (off : Nat) (step : Option Int) : Option α → Except Err (Option Int)
+  | none => .ok none
+  | some a => match m.get? a with
+    | none => .error .lookup
+    | some p =>
+      if step.getD 1 < 0 then
+        (if (p : Int) + off - 1 < 0 then .ok none else .ok (some ((p : Int) + off - 1)))
+      else .ok (some ((p : Int) + off + 1))
+
 /-- `slice(*LocMap.map_slice_args(label_to_pos.get, key, labels, offset))` -/
 def mapSliceArgs (m : AMap α) (off : Nat) (start stop : Option α) (step : Option Int) :
     Except Err PySlice :=
   match mapSliceArg m off false start with
   | .error e => .error e
-  | .ok a => match mapSliceArg m off true stop with
+  | .ok a => match mapSliceStop m off step stop with
     | .error e => .error e
     | .ok b => .ok ⟨a, b, step⟩
 
